@@ -187,6 +187,16 @@ def run_shard(spec):
                 sh.violation(v[0], v[1], v[2], known_key=k2, what="%s: %s" % (v[0], v[1][:150]))
             sh.count("known_witnesses_replayed")
     if spec.get("witness"):
+        # long record lists in one call (one JSON document per record, whatever the count)
+        for js, recs in (("int", list(range(5000))), ({"type": "record", "name": "Row", "fields": [{"name": "i", "type": "int"}, {"name": "s", "type": ["null", "string"]}]},
+                                                    [{"i": i, "s": None if i % 3 else "s%d" % i} for i in range(4100)]),
+                         (["null", "long"], [None if i % 5 == 0 else i for i in range(4200)])):
+            node, env = RS.build(js)
+            case = {"schema": js, "node": node, "features": set()}
+            v = sh.run_case(one_case, sh, fa, random.Random(5), case, recs)
+            if v:
+                sh.violation(v[0], v[1][:600], {"schema": js, "records": "%d records" % len(recs)})
+            sh.count("long_record_lists")
         # values that need no encoder / decoder call of their own, at every nesting the codec knows
         E = {"type": "record", "name": "Empty", "fields": []}
         W = {"type": "record", "name": "Wrap", "fields": [{"name": "a", "type": E}, {"name": "b", "type": "Empty"}]}
